@@ -108,12 +108,14 @@ impl Driver {
         };
         // (iii) limits
         if real_size as u64 > consensus.max_block_bytes() {
-            self.violation("C13 template larger than max_block_bytes", desc.clone(), None);
+            let sig = self.known_c11_signature();
+            self.violation("C13 template larger than max_block_bytes", desc.clone(), sig);
         } else if real_size as u64 + 400 > consensus.max_block_bytes() {
             self.w.stat("template_within_400_bytes_of_limit");
         }
         if cycles > consensus.max_block_cycles() {
-            self.violation("C13 template cycles above max_block_cycles", desc.clone(), None);
+            let sig = self.known_c11_signature();
+            self.violation("C13 template cycles above max_block_cycles", desc.clone(), sig);
         } else if cycles + 1_000 > consensus.max_block_cycles() {
             self.w.stat("template_within_1000_cycles_of_limit");
         }
@@ -189,8 +191,18 @@ impl Driver {
         }
     }
 
+    /// a C13 failure while the pool's ancestors_* are stale is the consequence of C11's recorded defects
     fn known_c11_signature(&self) -> Option<&'static str> {
-        None
+        let (d, _) = self.w.node.pool().verif_dump();
+        if crate::pred::aggregates_consistent(&d) {
+            None
+        } else if self.f3_seen {
+            Some("add_entry of a tx that already has pooled children")
+        } else if self.f10_seen {
+            Some("remove_entry of a tx that has both pooled ancestors and pooled descendants")
+        } else {
+            None
+        }
     }
 
     /// the raw TxSelector selection against the dump taken under the same lock
@@ -292,6 +304,19 @@ impl Driver {
     /// C11's known classes: F3 (a re-added parent finds its children pooled), F10 (an inner node leaves alone)
     fn note_c11_classes(&mut self, ch: &Change, before: Option<&PoolDump>) {
         let Some(b) = before else { return; };
+        {
+            let exp = self.w.cfg.expiry_hours as u64 * 3_600_000;
+            let pooled: HashSet<Byte32> = b.entries.iter().map(|e| e.tx_hash.clone()).collect();
+            for e in &b.entries {
+                if e.timestamp + exp < self.w.clock
+                    && e.inputs.iter().chain(e.related_deps.iter()).any(|op| pooled.contains(&op.tx_hash()))
+                    && b.entries.iter().any(|c| c.inputs.iter().chain(c.related_deps.iter()).any(|op| op.tx_hash() == e.tx_hash))
+                {
+                    self.f10_seen = true;
+                    self.w.stat("c11_F10_situation_expired_inner_node");
+                }
+            }
+        }
         let attached: HashSet<Byte32> = ch.attached.iter().flat_map(|x| x.transactions().into_iter().skip(1).map(|t| t.hash())).collect();
         for blk in &ch.detached {
             for tx in blk.transactions().iter().skip(1) {
